@@ -54,6 +54,8 @@ pub struct Exec {
     pub out: Vec<(String, String)>,
     pub hung: bool,
     pub after_conc: bool,
+    pub pkg_text: String,
+    pub pkg_content: String,
     pub queue: OrderQueue,
     /// C11: a level restored from a snapshot of `lvl`, fed the same continuation
     pub fork: Option<(PriceLevel, UuidGenerator)>,
@@ -133,6 +135,8 @@ impl Exec {
             out: Vec::new(),
             hung: false,
             after_conc: false,
+            pkg_text: String::new(),
+            pkg_content: String::new(),
             queue: OrderQueue::new(),
             fork: None,
             price: 0,
@@ -560,6 +564,53 @@ impl Exec {
                 let out = crate::codec::parse_by_type(ty, &text).unwrap_or_else(|| "?".into());
                 self.emit(line, format!("parsed {out}"));
                 self.emit(format!("judge.C18 {out}"), "J C18 ok");
+            }
+            ["json.rt", ty, v] => {
+                let Some(text) = crate::jsonc::enc_by_type(ty, v) else { return false };
+                self.emit(format!("json.enc {ty} {v}"), format!("json {}", crate::codec::hex(&text)));
+                let out = crate::jsonc::dec_by_type(ty, &text).unwrap_or_else(|| "?".into());
+                self.emit(format!("json.dec {ty} {}", crate::codec::hex(&text)), format!("jparsed {out}"));
+                // a level's aggregates are derived and its listing canonical
+                let want = if *ty == "leveldata" { crate::jsonc::leveldata_expect(v) } else { v.to_string() };
+                self.emit(format!("judge.C17 {ty} {want} {out}"), "J C17 ok");
+                self.emit(format!("judge.C18 {out}"), "J C18 ok");
+            }
+            ["pkg.make"] => {
+                let snap = self.lvl.snapshot();
+                let ids: Vec<OrderId> = snap.orders.iter().map(|o| o.id()).collect();
+                match catch_unwind(AssertUnwindSafe(|| self.lvl.snapshot_to_json())) {
+                    Ok(Ok(text)) => {
+                        self.pkg_content = show_state_content(&self.lvl);
+                        self.emit(format!("pkg.make {}", show_list(&ids, show_id)), format!("pkg {}", crate::codec::hex(&text)));
+                        self.pkg_text = text;
+                    }
+                    Ok(Err(e)) => self.emit(line, format!("pkg err={}", e.to_string().replace(' ', "_"))),
+                    Err(_) => self.emit(line, "PANIC"),
+                }
+            }
+            ["pkg.fault", kind, args @ ..] => {
+                let Some(f) = crate::jsonc::apply_fault(&self.pkg_text, kind, args) else {
+                    return true; // the fault does not apply to this package (e.g. no order to swap)
+                };
+                if f == self.pkg_text.as_bytes() {
+                    return true; // not a change
+                }
+                let outcome = match std::str::from_utf8(&f) {
+                    Err(_) => "restored err".to_string(),
+                    Ok(t) => match catch_unwind(AssertUnwindSafe(|| PriceLevel::from_snapshot_json(t))) {
+                        Ok(Ok(l)) => format!("restored ok {}", show_state_content(&l)),
+                        Ok(Err(_)) => "restored err".to_string(),
+                        Err(_) => "PANIC".to_string(),
+                    },
+                };
+                // the model is asked only when the damaged text is still a JSON document
+                if let Ok(t) = std::str::from_utf8(&f) {
+                    if serde_json::from_str::<serde_json::Value>(t).is_ok() {
+                        self.emit(format!("pkg.restore {}", crate::codec::hex(t)), outcome.clone());
+                    }
+                }
+                self.emit(format!("judge.C09 {} {}", self.pkg_content, outcome), "J C09 ok");
+                self.emit(format!("judge.C18 {}", outcome), "J C18 ok");
             }
             ["read", kind] => {
                 // read-only calls: must not change any later result (C07); outputs are not compared here
